@@ -40,7 +40,7 @@ type Tree struct {
 }
 
 var rec = ev.New("C13", "c13.calltree",
-	"generated call trees: a root template and up to 5 generated components whose bodies and child blocks are sequences of markers, children slots (0..2 per body), and calls - with or without a block, nested up to depth 4 - to generated components, once handles (block form and fixed-component form), templ.Flush, templ.Raw, templ.Join, a function component that ignores children, a hand-written one that renders templ.GetChildren, one that captures its children in a buffer of its own before writing them, and a hand-written layer that renders two generated components with the context it received; "+
+	"generated call trees: a root template and up to 5 generated components whose bodies and child blocks are sequences of markers, children slots (0..2 per body), and calls - with or without a block, nested up to depth 4 - to generated components, once handles (block form and fixed-component form), templ.Flush, templ.Raw, templ.Join, a function component that ignores children, a hand-written one that renders templ.GetChildren, one that captures its children in a buffer of its own before writing them, a layer that withholds its block from the component it renders (templ.WithChildren(ctx, nil)), and a hand-written layer that renders two generated components with the context it received; "+
 		"every tree is generated with /repo's generator, compiled and rendered - once with Render, once served by templ.Handler in front of a children slot that gets no block, right after a request whose render was abandoned with a block still pending -; the marker sequence must equal the one computed by a reference interpreter of the statement (a callee gets exactly its call site's block, blocks are evaluated in the caller's scope, nothing leaks to siblings or descendants, nothing is rendered twice). "+
 		"Non-trivial = the tree has a no-block call inside some block, or a sibling after a call whose callee does not consume its block; distinct by tree")
 
@@ -129,6 +129,10 @@ func (in *interp) eval(items []Item, sc *scope) {
 				for _, c := range it.joined() {
 					in.eval(in.t.Comps[c], &scope{})
 				}
+			case "fnwithhold":
+				// a hand-written layer that is given a block and renders its component with
+				// templ.WithChildren(ctx, nil): the component is called without children
+				in.eval(in.t.Comps[it.A], &scope{})
 			case "fnseq":
 				// a hand-written layer that renders its components in turn with the context it was
 				// rendered with: that is Go's way of calling the first one with the layer's own
@@ -209,6 +213,8 @@ func (t Tree) source(prefix string) string {
 					expr = "fnKids()"
 				case "fncapture":
 					expr = "fnCapture()"
+				case "fnwithhold":
+					expr = fmt.Sprintf("fnWithhold(%sC%d())", prefix, it.A)
 				case "join", "fnseq":
 					var args []string
 					for _, c := range it.joined() {
@@ -291,6 +297,13 @@ func fnSeq(cs ...templ.Component) templ.Component {
 			}
 		}
 		return nil
+	})
+}
+
+// fnWithhold renders c without children, whatever block the layer itself was given.
+func fnWithhold(c templ.Component) templ.Component {
+	return templ.ComponentFunc(func(ctx context.Context, w io.Writer) error {
+		return c.Render(templ.WithChildren(ctx, nil), w)
 	})
 }
 
@@ -481,14 +494,14 @@ func (g genCtx) items(depth int, inBlock bool) []Item {
 			out = append(out, Item{Kind: "slot"})
 		default:
 			it := Item{Kind: "call"}
-			callees := []string{"gen", "gen", "gen", "once", "oncefixed", "flush", "raw", "fn", "fnkids", "join", "fnseq", "fncapture"}
+			callees := []string{"gen", "gen", "gen", "once", "oncefixed", "flush", "raw", "fn", "fnkids", "join", "fnseq", "fncapture", "fnwithhold"}
 			it.Callee = rapid.SampledFrom(callees).Draw(g.t, "callee")
 			lo := g.current + 1
-			if (it.Callee == "gen" || it.Callee == "join" || it.Callee == "fnseq") && lo >= g.nComps {
+			if (it.Callee == "gen" || it.Callee == "join" || it.Callee == "fnseq" || it.Callee == "fnwithhold") && lo >= g.nComps {
 				it.Callee = "fn"
 			}
 			switch it.Callee {
-			case "gen":
+			case "gen", "fnwithhold":
 				it.A = rapid.IntRange(lo, g.nComps-1).Draw(g.t, "comp")
 			case "join", "fnseq":
 				it.A = rapid.IntRange(lo, g.nComps-1).Draw(g.t, "compA")
